@@ -17,6 +17,9 @@ CLAIMED = {
  "C05": dict(engine="E1", design="§5 C05", technique="bounded exhaustive enumeration of type expressions, real pipeline + type-tree extractor vs structural/category reference model",
      text="All unary constructor chains (Vec, array, slice, Option, Box, &) of depth ≤ 2 (quick) / ≤ 4 (thorough) over 17 leaves, every smart-pointer name and path form, maps and user generics with chain arguments, const types; × 4 positions × 6 languages × 2 configurations × type-mapping tables (~1.3M executions thorough). The type text at the use site is parsed back to a tree and compared structurally; primitives are judged by JSON category and value range.",
      note="Trusted: target primitive ranges from language references; TypeScript optionality is judged by C04, not here."),
+ "C08": dict(engine="E1+S-cli", design="§5 C08", technique="bounded exhaustive planting of unsupported constructs under all carrier chains and positions; parser verdict + differential under skip; CLI runs for the no-output clause",
+     text="6 unsupported types under every carrier chain of depth ≤ 2 (quick) / ≤ 3 (thorough; depth 4–5 with ≤ 2 distinct constructors) over 9 constructors at 9 positions × 3 skip states, plus 17 structural constructs × 6 languages; the real parser must record an error, and with the construct under a skip marker the output must equal that of the program with the member deleted. The real binary is run on 9 constructs × languages × single/multi × absent/pre-existing output: it must exit with an error naming the file and leave the output location byte- and mtime-identical.",
+     note="Representable integer constant expressions (-5, (9)) may be accepted if the generated value is right. The CLI family uses a fixed list of constructs."),
  "C09": dict(engine="E1", design="§5 C09", technique="bounded exhaustive product over reference shapes; Referenced ⊆ Defined computed from the parsed output",
      text="Full product of 6 target kinds × serde(rename) on target × 13 reference positions (fields, containers, generic arguments, payloads, struct-variant fields, alias targets, self reference, generic-parameter positions) × serde(rename) on the referrer × 6 languages × 2 prefix configurations; every non-primitive name in a type tree, variant parent clause or Inner reference must be a definition of the same output, and every item must be defined as prefix + renamed name.",
      note="Names recognised as target primitives/builtins/helper vocabulary are not treated as user references (helpers are C12's)."),
@@ -67,7 +70,7 @@ def main():
                "baseline_off_cmd":"cd /repo && cargo nextest run --workspace --no-fail-fast --test-threads 8 --offline",
                "source_commits":[],"add_only":True},
       "engines":[
-        {"name":"E1","path":"/verif/mc/src/explore.rs","serves_properties":sorted(k for k,v in CLAIMED.items() if v["engine"].startswith("E1")),"kind_free_text":"stateless choice-sequence explorer (product / deviation-bounded), every case executed on the real code and judged by a reference model"},
+        {"name":"E1","path":"/verif/mc/src/explore.rs","serves_properties":sorted(k for k,v in CLAIMED.items() if "E1" in v["engine"]),"kind_free_text":"stateless choice-sequence explorer (product / deviation-bounded), every case executed on the real code and judged by a reference model"},
       ],
       "checks":checks,
       "notes":"All checks: ./check <id> --tier quick|thorough; exit 0 held / 1 violation / 2 machinery failure. Known findings: /verif/known_findings.json.",
